@@ -123,7 +123,19 @@ def run_c12(tier, seed):
         kinds = {}
         for kind, _ in cat:
             kinds[kind] = kinds.get(kind, 0) + 1
-        cov = {"states": r["states"], "transitions": r["transitions"], "traces": r["traces"], "events": r["events"],
+        # the event-loop side: invalid bytes from a client while its own and other clients' requests are in flight
+        # (design model with the protocol-error path, TLC-generated schedules, random walks: lib/core_checks.py)
+        import core_checks
+        v2, c2 = core_checks.run("C12", tier, seed)
+        viol += v2
+        for kk in ("states", "transitions", "traces", "events", "unrealised"):
+            r[kk] += c2[kk]
+        r["crashes"] += c2["crashes"]
+        r["harness_errors"] += c2["harness_errors"]
+        for kk, n in c2["other"].items():
+            other[kk] = other.get(kk, 0) + n
+        cov = {"model": c2["model"], "generated": c2["generated"], "conformance": c2["conformance"], "loop_scenarios_nontrivial": c2["nontrivial"],
+               "states": r["states"], "transitions": r["transitions"], "traces": r["traces"], "events": r["events"],
                "crashes": r["crashes"] + r["dead"], "unrealised": r["unrealised"], "nontrivial": len(cat), "other": other,
                "harness_errors": r["harness_errors"], "catalogue": kinds,
                "rule": "mutation catalogue over seed requests (every count/length replaced by zero, negative, non-canonical, huge and wrapping values; "
@@ -455,6 +467,11 @@ def replay(pid, payload):
             r = common.replay_and_validate(payload["cfg"], [payload["scenario"]], wd, "replay", par=1, spec="CmdTrace", cfgfile="CmdTrace.cfg",
                                            consts={"Limit": str(LIMIT)})
             return [v for v in r["viol"] if v["prop"] in (pid, "DEAD")]
+        if pid == "C12" and any(x["op"] == "send" for st in payload["scenario"]["steps"] for x in st["stim"]):
+            # a scenario of the event-loop side (abstract requests, not raw bytes)
+            r = common.replay_and_validate(payload["cfg"], [payload["scenario"]], wd, "replay", par=1)
+            off = {x["c"] for st in payload["scenario"]["steps"] for x in st["stim"] if x["op"] == "send" and any(q["k"] == "bad" for q in x["reqs"])}
+            return [v for v in r["viol"] if v["prop"] in (pid, "DEAD") or (v.get("c") and v["c"] not in off)]
         r = common.replay_and_validate(payload["cfg"], [payload["scenario"]], wd, "replay", par=1, spec="RawTrace", cfgfile="RawTrace.cfg")
         return [v for v in r["viol"] if v["prop"] in (pid, "DEAD") or v.get("c") == "c2"]
     finally:
@@ -464,7 +481,8 @@ def replay(pid, payload):
 def coverage_json(pid, cov):
     c = {"states": max(1, cov["states"]), "transitions": max(1, cov["transitions"]), "traces_validated_against_impl": cov["traces"],
          "samples": cov["samples"], "evaluations": cov["traces"], "distinct_nontrivial": cov["nontrivial"], "rule": cov["rule"]}
-    for k in ("events", "crashes", "unrealised", "catalogue", "harness_errors", "table_vs_docs", "names"):
+    for k in ("events", "crashes", "unrealised", "catalogue", "harness_errors", "table_vs_docs", "names", "model", "generated", "conformance",
+              "loop_scenarios_nontrivial"):
         if k in cov:
             c[k] = cov[k]
     c["violations_of_other_properties_seen"] = cov.get("other", {})
